@@ -13,12 +13,13 @@ GATE_OF = {"I": "i", "H": "h", "P": "s", "Pdag": "sdg", "X": "x", "Y": "y", "Z":
 
 
 class SpecOp:
-    __slots__ = ("id", "kind", "q", "c", "gates", "obj", "how")
+    __slots__ = ("id", "kind", "q", "c", "gates", "obj", "how", "noise")
 
     def __init__(self, id, kind, q, c=None, gates=None):
         self.id, self.kind, self.q, self.c, self.gates = id, kind, [tuple(x) for x in q], c, gates
         self.obj = None
         self.how = "add"
+        self.noise = None
 
     def to_json(self):
         d = {"id": self.id, "kind": self.kind, "q": [list(x) for x in self.q], "how": self.how}
